@@ -170,7 +170,7 @@ pub fn tape_checks(ctx: &Ctx) -> Vec<(&'static str, Box<CheckFn<'_>>)> {
 	vec![(
 		"hostile-counts",
 		Box::new(move |g: &mut Gen, stats: &mut Stats| {
-			let e = *g.pick(&entries);
+			let e = pick_entry(g, &entries);
 			let kind = g.below(3) as u8;
 			if g.chance(40) {
 				// ordinary mutated input as well
